@@ -56,6 +56,9 @@ NAME_POOLS = [
     {"fn": "group", "sn": "order", "dob": "select", "city": "index"},
     {"fn": "first name", "sn": "sur-name", "dob": "d.o.b", "city": "home city"},
     {"fn": "Group", "sn": "from", "dob": "table", "city": "Where"},
+    # names that contain the _l / _r suffixes Splink appends, in the middle and at the end
+    {"fn": "name_last", "sn": "sur_registered", "dob": "d_l_b", "city": "address_line_1"},
+    {"fn": "fn_l", "sn": "sn_r", "dob": "dob_r_l", "city": "city_L"},
 ]
 
 
@@ -74,7 +77,7 @@ def gen_scenario(rng):
     rules = rng.sample(RULES, rng.choice([1, 2, 2, 3]))
     em_col = rng.choice(["fn", "dob"])
     return {"link_type": lt, "names": ["ta", "tb", "tc"][:ntab], "tables": tables, "rules": rules,
-            "train": rng.random() < 0.6, "em_col": em_col, "threshold": rng.choice([0.3, 0.5, 0.9]),
+            "train": rng.random() < 0.6, "em_col": em_col, "em_fix_lambda": rng.random() < 0.4, "threshold": rng.choice([0.3, 0.5, 0.9]),
             "tf": rng.random() < 0.7}
 
 
@@ -172,7 +175,8 @@ def run_pipeline(sc, p):
             lk.training.estimate_u_using_random_sampling(max_pairs=1e7, seed=3)
             try:
                 lk.training.estimate_parameters_using_expectation_maximisation(
-                    block_on(cm[sc["em_col"]]), fix_u_probabilities=True)
+                    block_on(cm[sc["em_col"]]), fix_u_probabilities=True,
+                    fix_probability_two_random_records_match=sc.get("em_fix_lambda", False))
             except Exception as e:  # a training block without pairs raises in every presentation alike
                 if "resulted in no record pairs" not in str(e) and "no record pairs" not in str(e):
                     raise
